@@ -8,6 +8,7 @@ Inductive op :=
 | OLoad (k : N) (a : ta)               (* fresh handle k := automaton loaded from Timbuk text *)
 | OCopy (k j : N)                      (* k := copy of j (shares the transition table in the implementation) *)
 | OFinal (k q : N)                     (* SetStateFinal on k *)
+| OAdd (k : N) (a : ta)                (* load further rules / final states into the existing automaton k (same state names) *)
 | OUnion (k i j : N)                   (* k := Union(i, j) / UnionDisjointStates(i, j) *)
 | OIsect (k i j : N)                   (* k := Intersection(i, j) *)
 | OKeep (k i : N)                      (* k := RemoveUnreachableStates(i) / RemoveUselessStates(i) / GetTopDownAut(i) *)
@@ -21,7 +22,7 @@ Definition pset (p : pool) (k : N) (a : ta) : pool := (k, a) :: filter (fun e =>
 Definition premove (p : pool) (k : N) : pool := filter (fun e => negb (N.eqb (fst e) k)) p.
 
 Definition target (o : op) : N :=
-  match o with OLoad k _ | OCopy k _ | OFinal k _ | OUnion k _ _ | OIsect k _ _ | OKeep k _ | ODestroy k => k end.
+  match o with OLoad k _ | OCopy k _ | OFinal k _ | OAdd k _ | OUnion k _ _ | OIsect k _ _ | OKeep k _ | ODestroy k => k end.
 
 Definition add_final (q : N) (a : ta) : ta := {| rules := rules a; finals := q :: finals a |}.
 
@@ -30,6 +31,7 @@ Definition pool_step (p : pool) (o : op) : pool :=
   | OLoad k a => pset p k a
   | OCopy k j => match plookup p j with Some a => pset p k a | None => p end
   | OFinal k q => match plookup p k with Some a => pset p k (add_final q a) | None => p end
+  | OAdd k b => match plookup p k with Some a => pset p k (ta_app a b) | None => p end
   | OUnion k i j => match plookup p i, plookup p j with Some a, Some b => pset p k (tagged a b) | _, _ => p end
   | OIsect k i j => match plookup p i, plookup p j with Some a, Some b => pset p k (product a b) | _, _ => p end
   | OKeep k i => match plookup p i with Some a => pset p k a | None => p end
